@@ -26,16 +26,17 @@ def discharge(repo: Repo, s: Sink) -> str | None:
         if m.sorted_iter:
             return "the globs are sorted before they are joined"
         alpha = c05.path_alphabet()
+        mode = m.mode or "match"
         for pair in (["a", "b/*"], ["*.a", "a/**"], ["a*", "*b"], ["a/*", "a"]):
-            l1 = Lang.from_regex(m.regex_for(pair), 0, alpha, "match")
-            l2 = Lang.from_regex(m.regex_for(list(reversed(pair))), 0, alpha, "match")
+            l1 = Lang.from_regex(m.regex_for(pair), m.flags, alpha, mode)
+            l2 = Lang.from_regex(m.regex_for(list(reversed(pair))), m.flags, alpha, mode)
             if difference(l1, l2) is not None:
                 return None
         mf = repo.func("reuse.global_licensing.AnnotationsItem.matches")
         rets = [ast.unparse(n.value) for n in ast.walk(mf) if isinstance(n, ast.Return)]
-        if rets in (["bool(self._paths_regex.match(path))"], ["self._paths_regex.match(path) is not None"]):
+        if len(rets) == 1 and re.fullmatch(r"bool\(self\._paths_regex\.(match|fullmatch|search)\(path\)\)|self\._paths_regex\.(match|fullmatch|search)\(path\) is not None", rets[0]):
             return ("alternation of individually anchored operands: the compiled language is the same for either order of the"
-                    " operands (automata equivalence on 4 glob pairs) and the pattern is only used for the truthiness of .match")
+                    f" operands (automata equivalence on 4 glob pairs) and the pattern is only used for the truthiness of .{mode if mode != 'full' else 'fullmatch'}")
         return None
     if s.kind == "S2":
         # a constant subscript that only feeds the message of a raised exception
@@ -153,9 +154,20 @@ def rule_pool(ck: Check, repo: Repo, rid: str = "R2") -> None:
         r.violation(q, "serial and parallel path map different things", f"{args}", repo.loc(fn))
     c = repo.func("reuse.report._MultiprocessingContainer.__call__")
     src = re.sub(r"\s+", " ", ast.unparse(c))
-    ok = "if self.has_dep5 and (not self.reuse_dep5):" in src and "self.project.global_licensing = self.reuse_dep5" in src \
-        and "ReuseDep5.from_file(self.project.root / '.reuse/dep5')" in src
-    r.instance("worker-dep5", {"ok": ok})
+    # structural: when the container holds a dep5 copy (global_licensing=None in the copy), the worker parses
+    # <root>/.reuse/dep5 and stores the result in project.global_licensing before the report is generated.  The guard may
+    # or may not consult has_dep5: a parse that fails (no such file) is suppressed either way.
+    from ..rules import deep_text
+    parses = [n for n in ast.walk(c) if isinstance(n, ast.Call) and ast.unparse(n.func).endswith("ReuseDep5.from_file")
+              and n.args and ".reuse/dep5" in ast.unparse(n.args[0]) and "self.project.root" in ast.unparse(n.args[0])]
+    stores = [n for n in ast.walk(c) if isinstance(n, ast.Assign) and any(ast.unparse(t) == "self.project.global_licensing" for t in n.targets)]
+    stored_from_parse = any("ReuseDep5.from_file" in ast.unparse(n.value) or ast.unparse(n.value) in ("self.reuse_dep5", "reuse_dep5", "dep5") for n in stores)
+    gen = [n for n in ast.walk(c) if isinstance(n, ast.Call) and ast.unparse(n.func).endswith("FileReport.generate")]
+    before = bool(parses and stores and gen) and max(n.lineno for n in stores) < min(n.lineno for n in gen)
+    negated_guard = any(isinstance(n, ast.If) and any(p in list(ast.walk(n)) for p in parses)
+                        and re.search(r"\bnot (self\.has_dep5|self\.project\.global_licensing is None)", ast.unparse(n.test)) for n in ast.walk(c))
+    ok = bool(parses) and stored_from_parse and before and not negated_guard
+    r.instance("worker-dep5", {"ok": ok, "parses": len(parses), "stores": len(stores)})
     if not ok:
         r.violation("reuse.report._MultiprocessingContainer.__call__", "worker state",
                     "the worker must re-parse .reuse/dep5 into project.global_licensing (the attribute the serial path reads)", repo.loc(c))
